@@ -26,12 +26,13 @@ Kv(key, v) == [key |-> key, v |-> v]
 
 InnerFs == <<Fd("Name", TRUE, FALSE, "s:inner.Name"), Fd("Deep", TRUE, FALSE, "s:inner.Deep"), Fd("hidden", FALSE, FALSE, "n:1"),
              Fd("Core", TRUE, TRUE, "core")>>
+\* NI is of a non-empty interface type (it holds the same Inner as I)
 OuterFs(pinner) ==
   << Fd("Name", TRUE, FALSE, "s:outer.Name"), Fd("Age", TRUE, FALSE, "n:42"), Fd("Zero", TRUE, FALSE, "n:0"),
      Fd("Empty", TRUE, FALSE, "s:"), Fd("F", TRUE, FALSE, "b:false"),
      Fd("Inner", TRUE, TRUE, "inner"), Fd("PInner", TRUE, TRUE, pinner),
      Fd("Tags", TRUE, FALSE, "tags"), Fd("M", TRUE, FALSE, "m"), Fd("P", TRUE, FALSE, "p_inner"), Fd("NilP", TRUE, FALSE, "nilp"),
-     Fd("I", TRUE, FALSE, "i_inner"), Fd("NilI", TRUE, FALSE, "niliface"), Fd("secret", FALSE, FALSE, "s:secret"),
+     Fd("I", TRUE, FALSE, "i_inner"), Fd("NI", TRUE, FALSE, "i_inner"), Fd("NilI", TRUE, FALSE, "niliface"), Fd("secret", FALSE, FALSE, "s:secret"),
      Fd("Arr", TRUE, FALSE, "arr"), Fd("S", TRUE, FALSE, "s:hi"), Fd("MN", TRUE, FALSE, "mn"), Fd("MI", TRUE, FALSE, "mi"),
      Fd("NilM", TRUE, FALSE, "nilmap") >>
 
@@ -88,7 +89,7 @@ IdxStep(i)        == [t |-> "idx", n |-> "", i |-> i, j |-> 0, syn |-> "br"]    
 StrIdxOnSeq       == [t |-> "sidx", n |-> "x", i |-> 0, j |-> 0, syn |-> "br"]   \* ["x"] on a slice
 SliceStep(i, j)   == [t |-> "slice", n |-> "", i |-> i, j |-> j, syn |-> "br"]   \* [i:j]; -1 = omitted
 
-FieldNames == {"TopName", "Outer", "Alpha", "Beta", "Gamma", "Core", "Name", "Age", "Zero", "Empty", "F", "Deep", "PName", "Inner", "Tags", "M", "P", "NilP", "I", "NilI",
+FieldNames == {"TopName", "Outer", "Alpha", "Beta", "Gamma", "Core", "Name", "Age", "Zero", "Empty", "F", "Deep", "PName", "Inner", "Tags", "M", "P", "NilP", "I", "NI", "NilI",
                "secret", "hidden", "Arr", "S", "MN", "MI", "NilM", "Nosuch", "a", "zero", "k", "nokey", "o", "n"}
 MethodNames == {"ValM", "PtrM", "InnerM", "NoM"}
 Steps == {NameStep(n, s) : n \in FieldNames, s \in {"dot", "br"}} \cup {CallStep(m) : m \in MethodNames}
